@@ -75,7 +75,8 @@ ASSUMPTIONS = ["urllib.parse.parse_qs defines what 'the query parameters' of a q
                "object names in PATH_INFO contain no newline (only member names do)",
                "QUERY_STRING is always present in the environ (wsgiref always sets it)",
                "messages received by the daemons are observed by replacing the name 'protocol' inside Pyro5.server by a delegating object"]
-BUDGET_S = {"quick": 42, "thorough": 800}
+BUDGET_S = {"quick": 34, "thorough": 780}
+COMM_TIMEOUT = 30.0
 
 # ------------------------------------------------------------------------------------------------
 # the world behind the gateway
@@ -289,6 +290,9 @@ class _Env(object):
         config.NS_HOST = "127.0.0.1"
         config.NS_PORT = self.ns_port
         config.NS_BCPORT = self.ns_port     # never used: the direct attempt on 127.0.0.1 succeeds
+        # hang guard only: every blocking socket operation of the gateway's proxies gives up after COMM_TIMEOUT seconds
+        # (normal latency is ~1 ms); perform() turns such a timeout into a HarnessError (inconclusive), never a verdict
+        config.COMMTIMEOUT = COMM_TIMEOUT
         httpgateway._nameserver = None
         # facts the oracle may use: registered names and the real exposed members (asked directly, not via the gateway)
         self.meta = {}
@@ -374,7 +378,7 @@ class _Env(object):
         hg.pyro_app.gateway_key = case["gateway_key"]
         hg.pyro_app.ns_regex = case["ns_regex"]
         hg.pyro_app.cors = "*"
-        hg.pyro_app.comm_timeout = 0.0
+        hg.pyro_app.comm_timeout = COMM_TIMEOUT
         self.quiesce()
         with self.loglock:
             del self.log[:]
@@ -407,15 +411,18 @@ class _Env(object):
             obs["body"] = body
         except Exception as x:
             obs["exc"] = "%s: %s" % (type(x).__name__, x)
-        finally:
-            # never leave a restriction-free or case-specific configuration behind for other users of the module
-            pass
         if started:
             obs["status"], obs["headers"] = started[-1]
             try:
                 obs["code"] = int(obs["status"].split()[0])
             except Exception:
                 obs["code"] = -1
+        timed_out = "TimeoutError" in (obs["exc"] or "")
+        if obs["code"] == 500:
+            ok, j = _is_error_json(obs["body"])
+            timed_out = timed_out or (ok and j["__class__"].endswith("TimeoutError"))
+        if timed_out:
+            raise HarnessError("a Pyro call behind the gateway got no answer within %.0f s (case %r): inconclusive" % (COMM_TIMEOUT, case))
         self.quiesce()
         with self.tlock:
             obs["traffic"] = list(self.traffic[t0:])
@@ -1053,7 +1060,7 @@ def run(ctx):
             ctx.observe(case, run_case(case), _nontrivial(case), _labels(case) + ["sweep"])
             n += 1
         ctx.notes["sweep_cases"] = n
-        ctx.search(case_strategy(), run_case, ctx.n(1500, 30000), nontrivial=_nontrivial, labels=_labels, name="gateway", max_rounds=10)
+        ctx.search(case_strategy(), run_case, ctx.n(1200, 30000), nontrivial=_nontrivial, labels=_labels, name="gateway", max_rounds=10)
     finally:
         _shutdown_env()
         faulthandler.cancel_dump_traceback_later()
